@@ -209,7 +209,7 @@ def check(c, tier, replay):
     c.sample(scns[-1])
     c.assumptions += ['no recorder is stalled for more than one bucket length (the driver refuses clock ticks that would break it, as the spec does)',
                       'hook placement: a step resuming from la.setstart / la.reset is a roll-over of the slot selected by that goroutine',
-                      'termination is checked as "every forced schedule runs to completion within 20000 steps" plus TLC deadlock-free exploration',
+                      'termination is checked as "every forced schedule runs to completion within 5000 steps" plus TLC deadlock-free exploration',
                       'exhaustive interleavings only for the bounded configurations listed in tlc_runs']
 
 
